@@ -279,4 +279,112 @@ theorem step_back (c : Comp) (op : Op) (hw : WF c) (j j' : Jumper) (hj : j ∈ c
       have := same_bib_eq c hw j' j hj' hj hb
       rw [this, he] at he'; cases he'
 
+/-- after the tail of `_rank`: either a jump-off is on, or every record has the bib and the in / out flag of a record of before -/
+def TailKeeps (cr c' : Comp) : Prop :=
+  c'.phase = .jumpoff ∨ ∀ k' ∈ c'.jumpers, ∃ k ∈ cr.jumpers, k'.bib = k.bib ∧ k'.eliminated = k.eliminated
+
+theorem tailKeeps_same (cr c' : Comp) (h : c'.jumpers = cr.jumpers) : TailKeeps cr c' :=
+  Or.inr (fun k' hk' => ⟨k', h ▸ hk', rfl, rfl⟩)
+
+theorem rankTail_keeps (cr : Comp) : TailKeeps cr (rankTail cr) := by
+  unfold rankTail
+  split
+  · exact tailKeeps_same cr cr rfl
+  · split
+    · split
+      · unfold rankTie
+        simp only
+        split
+        · exact Or.inl (by rw [(rankj_frame _).2.2.1])
+        · next hn =>
+          have h0 : (cr.jumpers.filter (reinstated cr)).length = 0 := by omega
+          exact tailKeeps_same cr _ (map_if_none cr.jumpers (reinstated cr) reinstate h0)
+      · unfold rankLeader
+        split
+        · split
+          · next hc =>
+            refine Or.inl ?_
+            rw [(rankj_frame _).2.2.1]
+            simp only [Bool.and_eq_true, beq_iff_eq] at hc
+            exact hc.1
+          · exact tailKeeps_same cr _ rfl
+        · exact tailKeeps_same cr cr rfl
+    · unfold rankOneLeft
+      split
+      · exact tailKeeps_same cr _ rfl
+      · exact tailKeeps_same cr cr rfl
+    · exact tailKeeps_same cr cr rfl
+
+theorem rankTail_back (cr : Comp) (hw : WF cr) (k k' : Jumper) (hk : k ∈ cr.jumpers) (hk' : k' ∈ (rankTail cr).jumpers)
+    (hb : k'.bib = k.bib) (he : k.eliminated = true) (he' : k'.eliminated = false) : (rankTail cr).phase = .jumpoff := by
+  rcases rankTail_keeps cr with h | h
+  · exact h
+  · exfalso
+    obtain ⟨k2, hk2, hb2, he2⟩ := h k' hk'
+    have := same_bib_eq cr hw k2 k hk2 hk (by rw [← hb2, hb])
+    rw [this, he] at he2
+    rw [he2] at he'; cases he'
+
+/-- **Whoever comes back after being out comes back into a jump-off** -/
+theorem step_back_phase (c : Comp) (op : Op) (hw : WF c) (j j' : Jumper) (hj : j ∈ c.jumpers)
+    (hj' : j' ∈ (step c op).1.jumpers) (hb : j'.bib = j.bib) (he : j.eliminated = true) (he' : j'.eliminated = false) :
+    (step c op).1.phase = .jumpoff := by
+  cases op with
+  | add b =>
+    exfalso
+    rw [step_add] at hj'
+    split at hj'
+    · next hc =>
+      simp only [addResult, List.mem_append, List.mem_singleton] at hj'
+      rcases hj' with h | h
+      · have := same_bib_eq c hw j' j h hj hb
+        rw [this, he] at he'; cases he'
+      · have : j'.bib = b := by rw [h]
+        exact find_none_bib c b hc.2 j hj (by rw [← hb, this])
+    · have := same_bib_eq c hw j' j hj' hj hb
+      rw [this, he] at he'; cases he'
+  | bar x =>
+    exfalso
+    rw [step_bar] at hj'
+    split at hj'
+    · simp only [barResult] at hj'
+      obtain ⟨k, hk, rfl⟩ := List.mem_map.1 hj'
+      have hkb : k.bib = j.bib := by rw [← hb]; split <;> rfl
+      have hkj := same_bib_eq c hw k j hk hj hkb
+      subst hkj
+      simp [he] at he'
+    · have := same_bib_eq c hw j' j hj' hj hb
+      rw [this, he] at he'; cases he'
+  | trial b t =>
+    rcases step_trial c b t with ⟨ja, ja', hfd, _, _, hact, hs⟩ | ⟨h1, _⟩
+    · rw [hs] at hj' ⊢
+      change j' ∈ (rank (logTrial c b t ja')).jumpers at hj'
+      show (rank (logTrial c b t ja')).phase = .jumpoff
+      obtain ⟨hea, _, _⟩ := act_some ja ja' _ _ t hact
+      obtain ⟨hma, hba⟩ := find_some_mem c b ja hfd
+      have hwL : WF (logTrial c b t ja') :=
+        WF_of_same_bibs c (logTrial c b t ja') (by simp [update_bibs]) (List.Perm.refl _) hw
+      have hwR := rankj_WF _ hwL
+      rw [rank_eq_tail] at hj' ⊢
+      -- the record of j in the ranked state: j itself (the actor was not out), with another place
+      have hjne : j ≠ ja := fun e => by rw [e, hea] at he; cases he
+      have hjL : j ∈ (logTrial c b t ja').jumpers := by
+        show j ∈ (c.update ja').jumpers
+        unfold Comp.update
+        refine List.mem_map.2 ⟨j, hj, ?_⟩
+        have hjab : ja'.bib = ja.bib := by rw [act_core ja ja' _ _ t hact, actCore_bib]
+        have : ¬ (j.bib == ja'.bib) = true := by
+          intro e
+          have e' : j.bib = ja.bib := by rw [← hjab]; simpa using e
+          exact hjne (same_bib_eq c hw j ja hj hma e')
+        simp [this]
+      have hjR : ({ j with place := 1 + ((logTrial c b t ja').jumpers.filter (fun k => Key.lt k.key j.key)).length } : Jumper) ∈ (rankj (logTrial c b t ja')).jumpers := by
+        rw [rankj_jumpers _ hwL]
+        exact List.mem_map.2 ⟨j, hjL, rfl⟩
+      exact rankTail_back _ hwR _ j' hjR hj' hb he he'
+    · exfalso
+      rw [h1] at hj'
+      have := same_bib_eq c hw j' j hj' hj hb
+      rw [this, he] at he'; cases he'
+
 end AthlibVerif.HJ
